@@ -235,6 +235,10 @@ struct Gen {
     /// sum of the offsets added so far (kept small when `base` is near the i64 limits)
     shift: i64,
     big: bool,
+    /// 1: positions AT and just below i64::MAX (base = i64::MAX), -1: at and just above i64::MIN
+    /// (base = i64::MIN), 0: elsewhere. Interval ends `position + size` exceed i64::MAX there;
+    /// only `index + offset` of add_offset_to_all_indices is kept inside i64 (shifts away from the limit).
+    edge: i64,
 }
 
 fn size(rng: &mut Rng) -> u64 {
@@ -249,7 +253,19 @@ impl Gen {
     fn pos(&self, rng: &mut Rng) -> i64 {
         // mostly multiples of 4 so that exact hits and partial overlaps are both frequent
         let o = if rng.chance(1, 2) { 4 * rng.range(-6, 6) } else { rng.range(-24, 24) };
-        self.base + o
+        match self.edge {
+            0 => self.base + o,
+            // one-sided; the limit itself and its neighbours are frequent
+            e => {
+                let d = match rng.below(8) {
+                    0 | 1 => 0,
+                    2 => 1,
+                    3 => rng.range(0, 8),
+                    _ => o.abs(),
+                };
+                self.base - e * d
+            }
+        }
     }
 
     /// one simple (non-merge, non-probe) operation
@@ -264,12 +280,15 @@ impl Gen {
             64..=73 => json!({"o": "mwt", "p": self.pos(rng), "n": size(rng)}),
             74..=82 => {
                 let s = self.pos(rng);
-                let e = s + if rng.chance(1, 2) { 0 } else { rng.range(0, 12) };
+                let e = s.saturating_add(if rng.chance(1, 2) { 0 } else { rng.range(0, 12) });
                 json!({"o": "mi", "s": s, "e": e, "n": size(rng)})
             }
             83..=85 => json!({"o": "ma"}),
             86..=92 => {
                 let mut d = if rng.chance(1, 6) { 0 } else { rng.range(-9, 9) };
+                if self.edge != 0 {
+                    d = -self.edge * d.abs();
+                }
                 if self.big && (self.shift + d).abs() > 12 {
                     d = 0;
                 }
@@ -288,7 +307,7 @@ impl Gen {
             1 => json!({"o": "rm", "p": self.pos(rng), "n": -rng.range(0, 3)}),
             2 => {
                 let s = self.pos(rng);
-                json!({"o": "mi", "s": s, "e": s - rng.range(2, 12), "n": 1})
+                json!({"o": "mi", "s": s, "e": s.saturating_sub(rng.range(2, 12)), "n": 1})
             }
             3 => json!({"o": "mwt", "p": self.pos(rng), "n": 0}),
             4 => {
@@ -297,7 +316,7 @@ impl Gen {
             }
             _ => {
                 let s = self.pos(rng);
-                json!({"o": "mi", "s": s, "e": s - 1, "n": 1})
+                json!({"o": "mi", "s": s, "e": s.saturating_sub(1), "n": 1})
             }
         }
     }
@@ -311,9 +330,17 @@ fn probe(rng: &mut Rng, g: &Gen) -> Value {
     }
 }
 
-fn gen_history<T: Dom>(rng: &mut Rng, max_len: u64, ab: u64, big: bool) -> Vec<Value> {
-    let base = if big {
-        if rng.chance(1, 2) {
+fn gen_history<T: Dom>(rng: &mut Rng, max_len: u64, ab: u64, big: bool, edge: bool) -> Vec<Value> {
+    let up = rng.chance(1, 2);
+    let edge: i64 = if !edge { 0 } else if up || rng.chance(1, 2) { 1 } else { -1 };
+    let base = if edge != 0 {
+        if edge == 1 {
+            i64::MAX
+        } else {
+            i64::MIN
+        }
+    } else if big {
+        if up {
             i64::MAX - 64
         } else {
             i64::MIN + 64
@@ -321,7 +348,8 @@ fn gen_history<T: Dom>(rng: &mut Rng, max_len: u64, ab: u64, big: bool) -> Vec<V
     } else {
         0
     };
-    let mut g = Gen { base, shift: 0, big };
+    let big = big || edge != 0;
+    let mut g = Gen { base, shift: 0, big, edge };
     let len = 1 + rng.below(max_len);
     let mut ops: Vec<Value> = Vec::new();
     let mut simple: Vec<Value> = Vec::new();
@@ -345,7 +373,7 @@ fn gen_history<T: Dom>(rng: &mut Rng, max_len: u64, ab: u64, big: bool) -> Vec<V
                     }
                 }
                 if mode >= 2 {
-                    let mut g2 = Gen { base: g.base + g.shift, shift: 0, big };
+                    let mut g2 = Gen { base: if edge != 0 { g.base } else { g.base + g.shift }, shift: 0, big, edge };
                     for _ in 0..rng.below(7) {
                         w.push(g2.simple_op::<T>(rng));
                     }
@@ -388,7 +416,7 @@ fn add_hit_probes<T: Dom>(rng: &mut Rng, ab: u64, ops: &mut Vec<Value>) {
         match rng.below(4) {
             0 => ops.push(json!({"o": "get", "p": k, "n": n})),
             1 => ops.push(json!({"o": "get", "p": k, "n": size(rng)})),
-            2 => ops.push(json!({"o": "get", "p": k + rng.range(-1, 1), "n": n})),
+            2 => ops.push(json!({"o": "get", "p": k.saturating_add(rng.range(-1, 1)), "n": n})),
             _ => ops.push(json!({"o": "getu", "p": k})),
         }
     }
@@ -401,7 +429,9 @@ fn main() {
         &args,
         "random operation histories (insert/add, remove, merge_write_top, mark_interval, mark_all, add_offset, \
          values_mut+clear_top_values, merge with a second independently built region, get/get_unsized probes) over \
-         offsets base-24..base+24 (base 0, or next to i64::MIN/MAX), sizes 1,2,3,4,8, three value domains \
+         offsets base-24..base+24 (base 0, or i64::MIN+64 / i64::MAX-64 without any overflow, or one-sided AT the limits: \
+         i64::MAX-24..=i64::MAX where position+size and end+elem_size exceed i64::MAX, and i64::MIN..=i64::MIN+24), \
+         sizes 1,2,3,4,8, three value domains \
          (BitvectorDomain, Taint, DataDomain<BitvectorDomain>); the full cell list is recorded after every operation; \
          non-trivial = some recorded state is non-empty; distinct by operation list",
     );
@@ -424,22 +454,24 @@ fn main() {
     let max_len = args.num("maxlen", 12, 40);
     for i in 0..histories {
         let big = rng.chance(1, 10);
-        let ab = if !big && rng.chance(1, 5) { 4 } else { 8 };
+        let edge = !big && rng.chance(1, 8);
+        let ab = if !big && !edge && rng.chance(1, 5) { 4 } else { 8 };
+        out.count(if edge { "hist:at-i64-limit" } else if big { "hist:near-i64-limit" } else { "hist:around-0" });
         // short histories are not less interesting than long ones: mix the length bound
         let ml = if rng.chance(1, 3) { 1 + max_len / 3 } else { max_len };
         match i % 3 {
             0 => {
-                let mut ops = gen_history::<BitvectorDomain>(&mut rng, ml, ab, big);
+                let mut ops = gen_history::<BitvectorDomain>(&mut rng, ml, ab, big, edge);
                 add_hit_probes::<BitvectorDomain>(&mut rng, ab, &mut ops);
                 emit::<BitvectorDomain>(&mut out, ab, ops)
             }
             1 => {
-                let mut ops = gen_history::<Taint>(&mut rng, ml, ab, big);
+                let mut ops = gen_history::<Taint>(&mut rng, ml, ab, big, edge);
                 add_hit_probes::<Taint>(&mut rng, ab, &mut ops);
                 emit::<Taint>(&mut out, ab, ops)
             }
             _ => {
-                let mut ops = gen_history::<Data>(&mut rng, ml, ab, big);
+                let mut ops = gen_history::<Data>(&mut rng, ml, ab, big, edge);
                 add_hit_probes::<Data>(&mut rng, ab, &mut ops);
                 emit::<Data>(&mut out, ab, ops)
             }
